@@ -173,8 +173,9 @@ type regState struct {
 }
 
 type regIn struct {
-	kind string
-	id   string
+	kind  string
+	id    string
+	nover bool // the boundary does not report the version a write was assigned (text protocol)
 }
 
 type regOut struct {
@@ -190,14 +191,20 @@ var model = porcupine.Model{
 		switch i.kind {
 		case "set":
 			nv := abs(s.ver) + 1
-			return o.accepted && o.ver == nv, regState{nv, i.id}
+			return o.accepted && (i.nover || o.ver == nv), regState{nv, i.id}
 		case "del":
 			if s.ver > 0 {
 				nv := -(abs(s.ver) + 1)
-				return o.accepted && o.ver == nv, regState{nv, ""}
+				return o.accepted && (i.nover || o.ver == nv), regState{nv, ""}
 			}
 			return !o.accepted, s
 		case "get":
+			if i.nover { // a protocol get shows the bytes only
+				if s.ver > 0 {
+					return o.id == s.id, s
+				}
+				return o.id == "", s
+			}
 			if s.ver > 0 {
 				return o.ver == s.ver && o.id == s.id, s
 			}
@@ -216,13 +223,24 @@ var model = porcupine.Model{
 // Porcupine checks one key's history with porcupine; result is "ok", "illegal"
 // or "unknown" (timeout).
 func Porcupine(ops []Op, timeout time.Duration) string {
+	return porcupineRun(ops, timeout, false)
+}
+
+// PorcupineProto checks a history recorded at the text-protocol boundary: writes
+// report accepted / refused only, a get reports the bytes only, a meta-get
+// (kind "getmem") reports the version; the sequential model is the same register.
+func PorcupineProto(ops []Op, timeout time.Duration) string {
+	return porcupineRun(ops, timeout, true)
+}
+
+func porcupineRun(ops []Op, timeout time.Duration, nover bool) string {
 	var pops []porcupine.Operation
 	for _, o := range ops {
 		if o.Err != "" {
 			continue
 		}
 		out := regOut{accepted: o.Accepted, ver: o.Ver, id: o.GotID}
-		pops = append(pops, porcupine.Operation{ClientId: o.Client, Input: regIn{o.Kind, o.ID}, Call: o.Inv, Output: out, Return: o.Res})
+		pops = append(pops, porcupine.Operation{ClientId: o.Client, Input: regIn{o.Kind, o.ID, nover}, Call: o.Inv, Output: out, Return: o.Res})
 	}
 	switch porcupine.CheckOperationsTimeout(model, pops, timeout) {
 	case porcupine.Ok:
